@@ -20,6 +20,10 @@ Good(e, exp) == /\ e.res.crash = ""
                                      /\ \A q \in 1..Len(exp.elems) : e.res.elems[q] - exp.elems[q] <= exp.tol /\ exp.elems[q] - e.res.elems[q] <= exp.tol
                                 ELSE e.res.elems = exp.elems
                 /\ (exp.ok /\ "dtype" \in DOMAIN exp) => e.res.dtype = exp.dtype
+                \* where the driver also logs the element count the object reports (size()): it is the product of the shape
+                /\ (exp.ok /\ "size" \in DOMAIN e.res) => e.res.size = Prod(exp.shape)
+                /\ (exp.ok /\ "sizes" \in DOMAIN e.res) => /\ Len(e.res.sizes) = Len(exp.shape)
+                                                           /\ \A j \in 1..Len(exp.shape) : e.res.sizes[j] = Prod(exp.shape[j])
 
 TInit == l = 1 /\ bad = <<>>
 TOp == /\ l <= Len(TraceLog)
